@@ -211,7 +211,9 @@ func (e *Engine) checkArrayIterators(n *Node, salt uint64) error {
 			case 1:
 				got, err = collectArr(func(fn atree.ArrayIterationFunc) error { return a.IterateReadOnlyRange(s, t, fn) })
 			case 2:
-				got, err = collectArr(func(fn atree.ArrayIterationFunc) error { return a.IterateReadOnlyRangeWithMutationCallback(s, t, fn, cb) })
+				got, err = collectArr(func(fn atree.ArrayIterationFunc) error {
+					return a.IterateReadOnlyRangeWithMutationCallback(s, t, fn, cb)
+				})
 			case 3:
 				got, err = collectIt(a.RangeIterator(s, t))
 			case 4:
@@ -402,7 +404,9 @@ func (e *Engine) checkMapIterators(n *Node) error {
 	if err := checkPairs(name+" IterateReadOnlyKeysWithMutationCallback", toKV(ks)); err != nil {
 		return err
 	}
-	vs, err = singles(func(fn atree.MapElementIterationFunc) error { return m.IterateReadOnlyValuesWithMutationCallback(fn, cb) })
+	vs, err = singles(func(fn atree.MapElementIterationFunc) error {
+		return m.IterateReadOnlyValuesWithMutationCallback(fn, cb)
+	})
 	if err != nil {
 		return e.viol("%s IterateReadOnlyValuesWithMutationCallback failed: %v", name, err)
 	}
